@@ -243,8 +243,10 @@ fn generate(cli: &Cli) -> (Vec<Case>, Vec<String>) {
     // F12: the *timeout Disconnect* half written when discovery completes (a client that neither echoes
     // nor reads): the client is sent the same packets as when the write goes through at once. Only the
     // clientbound side is compared: which backend calls were still made is a matter of timing here.
-    {
-        let spec = BaseSpec { name: "silent-client", intent: Intent::Login, secret: true, lat: [33_000, 0, 5_000], extras: vec![], no_target: false, ci_delay_ms: 0 };
+    // (the same with the selection - the last step, after which nothing is received any more - as the
+    // call that completes meanwhile)
+    for (stage, lat) in [("discovery", [33_000, 0, 5_000]), ("filter", [10_000, 23_000, 0]), ("selection", [0, 0, 33_000])] {
+        let spec = BaseSpec { name: "silent-client", intent: Intent::Login, secret: true, lat, extras: vec![], no_target: false, ci_delay_ms: 0 };
         let mut base = build_base(&spec, cli.seed ^ 0xfd);
         base.client.echo = Echo::Never;
         let brun = run(&base);
@@ -254,12 +256,24 @@ fn generate(cli: &Cli) -> (Vec<Case>, Vec<String>) {
                 for k in (1..d.frame_len).step_by(if quick { 3 } else { 1 }) {
                     let mut v = base.clone();
                     v.write_plan = WritePlan { steps: vec![], stalls: vec![(off + k, Duration::from_secs(2))] };
-                    cases.push(Case { class: format!("race/discovery-completes-while-timeout-disconnect-half-written@{k}"), shape: "write/clientbound-only/discovery-completes-inside-frame/TimeoutDisconnect".into(), base: base.clone(), variant: v });
+                    cases.push(Case { class: format!("race/{stage}-completes-while-timeout-disconnect-half-written@{k}"), shape: format!("write/clientbound-only/{stage}-completes-inside-frame/TimeoutDisconnect"), base: base.clone(), variant: v });
                 }
             }
             None => problems.push("silent-client base: no timeout Disconnect in the baseline".into()),
         }
     }
+    // F14: the transport delays Client Information by more than one or two keep-alive periods while
+    // the client goes on echoing: the same frames, only later, lead to the same calls and the same
+    // Transfer as when it arrives at once
+    for delay_s in [17u64, 20, 33, 50] {
+        for (bname, lat) in [("routing-20s", [1_000u64, 0, 19_000]), ("routing-40s", [20_000, 0, 20_000])] {
+            let mk_spec = |ci_delay_ms: u64| BaseSpec { name: "delayed-client-information", intent: Intent::Login, secret: true, lat, extras: vec![(500, plugin_message(4))], no_target: false, ci_delay_ms };
+            let base = build_base(&mk_spec(0), cli.seed ^ 0xf14);
+            let variant = build_base(&mk_spec(delay_s * 1000), cli.seed ^ 0xf14);
+            cases.push(Case { class: format!("client-information-delayed/{bname}/{delay_s}s"), shape: "read/frame-delayed-by-keep-alive-periods/ClientInformation".into(), base, variant });
+        }
+    }
+
     // F11: frames whose announced length has zero low bits (128, 256, 16384: prefixes 80 01, 80 02,
     // 80 80 01) cut inside the length prefix: the first prefix byte(s) alone look like "length 0"
     for body in [128usize, 256, 384, 16_384] {
